@@ -95,7 +95,10 @@ def resolve(x, how):
             return [_operand(d, how) for d in x["$pl"]]
         if "$np" in x:
             d = x["$np"]
-            return numpy.array(d["v"], dtype=d["dtype"]).reshape(tuple(d["shape"]))
+            arr = numpy.array(d["v"], dtype=d["dtype"]).reshape(tuple(d["shape"]))
+            if "vi" in d:  # imaginary parts of a complex array
+                arr = arr + 1j * numpy.array(d["vi"], dtype=d["dtype"]).reshape(tuple(d["shape"]))
+            return arr
         if "$tuple" in x:
             return tuple(resolve(i, how) for i in x["$tuple"])
         if "$dtype" in x:
